@@ -59,7 +59,10 @@ def writer_tables(prog):
                 tag = v.v if v.kind == "conststr" else None
                 continue
             sites[k.v] = bi
-            entries[k.v] = [json_type(vty), False]
+            if k.v in entries and isinstance(entries[k.v], list):
+                entries[k.v][0].add(json_type(vty))
+            else:
+                entries[k.v] = [{json_type(vty)}, False]
         # which keys are written on every non-error path
         def transfer(bi, facts):
             f = set(facts)
@@ -83,7 +86,7 @@ def writer_tables(prog):
                 always = set(IN[bi]) if always is None else (always & set(IN[bi]))
         for k in entries:
             if isinstance(entries[k], list):
-                entries[k] = (entries[k][0], k in (always or set()))
+                entries[k] = ("|".join(sorted(entries[k][0])), k in (always or set()))
         out[adt] = {"tag": tag, "entries": entries, "body": b}
     return out
 
@@ -98,11 +101,9 @@ def reader_tables(prog):
         rname = strip_generics(root).split("::")[-1]
         if not rname.startswith("parse_"):
             continue
-        if b.rec["kind"] == "Closure" and "::{closure" in b.id:
-            # members read per element (grid columns / rows) form the element's own table
-            depth = b.id.count("::{closure")
-            rname = rname + ":element"
+        is_closure = b.rec["kind"] == "Closure" and "::{closure" in b.id
         tab = out.setdefault(rname, {})
+        etab = out.setdefault(rname + ":element", {}) if is_closure else None
         for bi, t in b.calls():
             nm = strip_generics(mir.callee_name(t) or "")
             m = re.search(r"(?:HaystackDict>::|BTreeMap::)(get(?:_[a-z]+)?)$", nm)
@@ -112,6 +113,11 @@ def reader_tables(prog):
             if k.kind != "conststr":
                 continue
             jt = GETTERS.get(m.group(1), "any")
+            if is_closure:
+                # members read from a closure argument (grid columns / rows) form the element's own table; a closure that reads
+                # the captured dict of its parent (`.or_else(|| dict.get_num(..))`) reads the parent's members
+                rcv = repr(G.describe(b, t["args"][0]))
+                tab = out[rname] if re.match(r"_1[.*]", rcv) else etab
             # required? follow the None edge of the result
             req = None
             dl = t["dest"]["l"] if not t["dest"]["p"] else None
@@ -130,7 +136,9 @@ def reader_tables(prog):
                             req = r[1] == "Err"
                         break
             old = tab.get(k.v)
-            tab[k.v] = (jt, bool(req) if req is not None else (old[1] if old else False))
+            types = set(old[0].split("|")) if old else set()
+            types.add(jt)
+            tab[k.v] = ("|".join(sorted(types)), bool(req) if req is not None and not old else ((old[1] if old else False) if req is None else (old[1] and bool(req)) if old else bool(req)))
     return out
 
 
@@ -238,7 +246,7 @@ def check_tables(ctx, rep, with_spec):
             kk = "%s:field:%s" % (tag, k)
             if k not in r:
                 rep.bad("T-HAYSON", "T-HAYSON:" + kk, where, "writer emits member %r of %s but %s never reads it: it is lost on the way back" % (k, tag, pf))
-            elif r[k][0] not in ("any", jt):
+            elif "any" not in r[k][0].split("|") and not set(jt.split("|")) <= set(r[k][0].split("|")):
                 rep.bad("T-HAYSON", "T-HAYSON:" + kk, where, "member %r of %s is written as JSON %s but read with a getter for %s" % (k, tag, jt, r[k][0]))
             else:
                 rep.ok("T-HAYSON", kk, where, "written as %s%s, read by %s as %s%s" % (jt, "" if always else " (conditionally)", pf, r[k][0], " (required)" if r[k][1] else " (optional)"))
@@ -253,7 +261,7 @@ def check_tables(ctx, rep, with_spec):
             miss = {k for k, (t2, rq) in sf.items() if rq} - {k for k, (t2, al) in w["entries"].items() if al}
             if miss:
                 rep.bad("T-SPEC", "T-SPEC:%s:writer-missing" % tag, where, "writer does not always emit required member(s) %s of %s" % (sorted(miss), tag))
-            typebad = [k for k, (t2, al) in w["entries"].items() if k in sf and sf[k][0] != t2]
+            typebad = [k for k, (t2, al) in w["entries"].items() if k in sf and set(sf[k][0].split("|")) != set(t2.split("|"))]
             if typebad:
                 rep.bad("T-SPEC", "T-SPEC:%s:writer-types" % tag, where, "members %s are written with the wrong JSON type" % typebad)
             if not (wk - set(sf)) and not miss and not typebad:
@@ -357,11 +365,16 @@ def check_casts(ctx, rep):
                         rep.bad("R-CAST", "R-CAST:" + key, b.where(bi, st.get("line")), "float -> integer cast without a range guard: values beyond the integer range saturate and change magnitude")
         for bi, t in b.calls():
             nm = strip_generics(mir.callee_name(t) or "")
-            if nm == "serde::Serializer::serialize_f64":
+            is_f64_entry = False
+            if nm == "serde::ser::SerializeMap::serialize_entry" and (b.rec.get("impl") or {}).get("self_adt", "").endswith("number::Number"):
+                c = callee_of(t)
+                targs = [x for x in c.get("targs", []) if not x.startswith("'")]
+                is_f64_entry = bool(targs) and targs[-1] == "f64"
+            if nm == "serde::Serializer::serialize_f64" or is_f64_entry:
                 n += 1
                 gs = [repr(g) for g in G.guards_at(b, bi)]
                 fin = any(("is_finite" in g and "True" in g) or ("is_nan" in g and "False" in g) for g in gs)
-                key = "finite:%s:serialize_f64" % (b.rec.get("impl") or {}).get("self_adt", "?").split("::")[-1]
+                key = "finite:%s:%s" % ((b.rec.get("impl") or {}).get("self_adt", "?").split("::")[-1], "serialize_entry<f64>" if is_f64_entry else "serialize_f64")
                 if fin:
                     rep.ok("R-CAST", key, b.where(bi), "guarded by a finiteness test")
                 else:
